@@ -551,6 +551,88 @@ let cmd_serde (args : string list) : string =
            | Some j2 -> if j2 = j then "accept-same" else "accept-differs")))
   | _ -> "BADCASE"
 
+let dec_of_n (n : BinNums.coq_N) : string =
+  let ten = n_of_int 10 in
+  let rec go n acc =
+    match n with
+    | BinNums.N0 -> acc
+    | _ -> let (q, r) = BinNat.N.div_eucl n ten in go q (string_of_int (int_of_n r) ^ acc) in
+  match n with BinNums.N0 -> "0" | _ -> go n ""
+
+(* ---- fsth <debug01> <entries> <datehex> <versionhex> <exponent> ----
+   entries: the dependency's hierarchy entry stream as printed by the harness command fsthier *)
+let hxs (s : string) : BinNums.coq_N list = if s = "_" then [] else bytes_of_hex s
+let hxo (l : BinNums.coq_N list) : string = if l = [] then "_" else hex_of_bytes l
+
+let fst_entries_of (s : string) : FstHier.fst_entry list =
+  if s = "-" then [] else
+  Stdlib.List.map (fun e ->
+    match Stdlib.String.split_on_char ':' e with
+    | ["S"; tpe; nm; comp] -> FstHier.FeScope (n_of_int (int_of_string tpe), hxs nm, hxs comp)
+    | ["U"] -> FstHier.FeUpScope
+    | ["V"; tpe; dir; nm; len; h] ->
+      FstHier.FeVar (n_of_int (int_of_string tpe), n_of_int (int_of_string dir), hxs nm, n_of_dec len, nat_of_int (int_of_string h))
+    | ["P"; id; nm] -> FstHier.FePathName (n_of_dec id, hxs nm)
+    | ["T"; inst; pid; line] -> FstHier.FeSourceStem (inst = "1", n_of_dec pid, n_of_dec line)
+    | ["C"] -> FstHier.FeComment
+    | ["E"; nm; h; m] ->
+      let mapping = if m = "_" then [] else Stdlib.List.map (fun p -> let (a, b) = split2 '>' p in (hxs a, hxs b)) (Stdlib.String.split_on_char '+' m) in
+      FstHier.FeEnumTable (hxs nm, n_of_dec h, mapping)
+    | ["R"; h] -> FstHier.FeEnumTableRef (n_of_dec h)
+    | ["H"; tn; vt; dt] -> FstHier.FeVhdlVarInfo (hxs tn, n_of_int (int_of_string vt), n_of_int (int_of_string dt))
+    | ["A"] -> FstHier.FeAttributeEnd
+    | _ -> failwith ("bad fst entry " ^ e)) (Stdlib.String.split_on_char ';' s)
+
+let cmd_fsth (args : string list) : string =
+  match args with
+  | [dbg; entries; date; version; exp] ->
+    let debug = dbg = "1" in
+    let calls = get (FstHier.fst_read_hierarchy debug (fst_entries_of entries)) in
+    let ops = Stdlib.List.concat_map FstHier.hier_op_of calls in
+    let b = get (Hierarchy.hier_run Hierarchy.hb_new ops) in
+    let enums = Stdlib.List.filter_map (fun c -> match c with FstHier.FcEnum (n, m) -> Some (n, m) | _ -> None) calls in
+    let loc o = match o with None -> "~" | Some (p, l) -> hxo p ^ "@" ^ dec_of_n l in
+    let vx = Stdlib.List.filter_map (fun c -> match c with
+      | FstHier.FcVar (_, _, _, _, _, _, en, tn) ->
+        Some ((match tn with None -> "~" | Some t -> hxo t) ^ "/" ^
+              (match en with None -> "~" | Some id ->
+                 let (n, m) = Stdlib.List.nth enums (int_of_nat id) in
+                 hxo n ^ "[" ^ Stdlib.String.concat "+" (Stdlib.List.map (fun (a, b) -> hxo a ^ ">" ^ hxo b) m) ^ "]"))
+      | _ -> None) calls in
+    let sxl = Stdlib.List.filter_map (fun c -> match c with
+      | FstHier.FcScope (_, _, _, d, i) -> Some (loc d ^ "/" ^ loc i)
+      | _ -> None) calls in
+    (* a scope that is declared again continues the first one: then the calls and the scopes are not one to one *)
+    let sx = if Stdlib.List.length sxl <> Stdlib.List.length b.Hierarchy.hb_scopes then "?"
+             else if sxl = [] then "-" else Stdlib.String.concat ";" sxl in
+    let ts = (match FstHier.convert_timescale debug (z_of_dec exp) with
+              | Base.Ok (f, u) -> dec_of_n f ^ ":" ^ dec_of_n u
+              | Base.Err -> raise Model_err | Base.Panic -> raise Model_panic) in
+    let hobs = Stdlib.String.map (fun c -> if c = ' ' then ',' else c) (hierarchy_obs b) in
+    Printf.sprintf "%s vx=%s sx=%s date=%s version=%s ts=%s" hobs
+      (if vx = [] then "-" else Stdlib.String.concat ";" vx) sx
+      (hxo (FstHier.trim (hxs date))) (hxo (FstHier.trim (hxs version))) ts
+  | _ -> "BADCASE"
+
+(* ---- fstl <debug01> <tt> <ids> <tpes> <cbs> ---- FstWaveDatabase::load_signals *)
+let cmd_fstl (args : string list) : string =
+  match args with
+  | [dbg; tt; ids; tpes; cbs] ->
+    let debug = dbg = "1" in
+    let tt = if tt = "-" then [] else Stdlib.List.map n_of_hex (split_on ',' tt) in
+    let ids = Stdlib.List.map (fun i -> nat_of_int (int_of_string i)) (split_on ',' ids) in
+    let tpes = Stdlib.List.map sig_enc_of (split_on ',' tpes) in
+    let cbs = if cbs = "-" then [] else Stdlib.List.map (fun c ->
+      match Stdlib.String.split_on_char ':' c with
+      | [time; h; v] ->
+        let payload = Stdlib.String.sub v 1 (Stdlib.String.length v - 1) in
+        let fv = if v.[0] = 'r' then FstLoad.FvReal (Stdlib.List.rev (bytes_of_hex payload)) else FstLoad.FvString (hxs payload) in
+        ((n_of_hex time, nat_of_int (int_of_string h)), fv)
+      | _ -> failwith ("bad callback " ^ c)) (Stdlib.String.split_on_char ';' cbs) in
+    let sigs = get (FstHier.fst_load_signals debug tt ids tpes cbs) in
+    Stdlib.String.concat "|" (Stdlib.List.map signal_obs sigs)
+  | _ -> "BADCASE"
+
 let dispatch (cmd : string) (args : string list) : string =
   match cmd with
   | "offsets" -> cmd_offsets args
@@ -567,6 +649,8 @@ let dispatch (cmd : string) (args : string list) : string =
   | "ghwreg" -> cmd_ghwreg args
   | "vcd" -> cmd_vcd args
   | "serde" -> cmd_serde args
+  | "fsth" -> cmd_fsth args
+  | "fstl" -> cmd_fstl args
   | _ -> "UNSUPPORTED"
 
 let () =
